@@ -439,6 +439,9 @@ def plan(tier, seed):
         specs.append(dict(name="eval-%d" % i, kind="eval", n=220 if tier == "quick" else 8000))
     for i in range(8):
         specs.append(dict(name="timer-%d" % i, kind="timer", n=45 if tier == "quick" else 1500))
+    # once more with the library's debug tracing switched on
+    specs.append(dict(name="tracing-eval", kind="eval", n=40 if tier == "quick" else 1500, tracing=True))
+    specs.append(dict(name="tracing-timer", kind="timer", n=10 if tier == "quick" else 300, tracing=True))
     return specs
 
 
